@@ -11,6 +11,7 @@ CONSTANTS
   Weak_NoCentre = FALSE
   Weak_TieHighAddr = FALSE
   Weak_FloorDiv = FALSE
+  Weak_RoundSkipSingleIncrement = FALSE
   Weak_LoadSingleIncrement = FALSE
   Weak_LoadNoIncrement = FALSE
   Weak_LoadOffByOne = FALSE
